@@ -2,6 +2,7 @@ from abc import ABC, abstractmethod
 from collections.abc import Iterable
 from typing import Generic, TypeVar
 
+from guppylang_internals import _verif
 from guppylang_internals.cfg.bb import BB, VariableStats, VId
 
 # Type variable for the lattice domain
@@ -56,6 +57,8 @@ class ForwardAnalysis(Generic[T], Analysis[T], ABC):
         vals_before = {bb: self.initial() for bb in bbs}  # return value
         vals_after = {bb: self.apply_bb(vals_before[bb], bb) for bb in bbs}  # cache
         queue = set(bbs)
+        if _verif.ON:
+            queue = _verif.sched_set(queue, "ForwardAnalysis.run")
         while len(queue) > 0:
             bb = queue.pop()
             preds = (
@@ -68,6 +71,15 @@ class ForwardAnalysis(Generic[T], Analysis[T], ABC):
             if not self.eq(val_after, vals_after[bb]):
                 vals_after[bb] = val_after
                 queue.update(bb.successors)
+            if _verif.ON:
+                _verif.trace(
+                    "ForwardAnalysis.run",
+                    analysis=self,
+                    bb=bb,
+                    vals_before=vals_before,
+                    vals_after=vals_after,
+                    queue=queue,
+                )
         return vals_before
 
 
@@ -85,6 +97,8 @@ class BackwardAnalysis(Generic[T], Analysis[T], ABC):
         """
         vals_before = {bb: self.initial() for bb in bbs}
         queue = set(bbs)
+        if _verif.ON:
+            queue = _verif.sched_set(queue, "BackwardAnalysis.run")
         while len(queue) > 0:
             bb = queue.pop()
             succs = (
@@ -97,6 +111,14 @@ class BackwardAnalysis(Generic[T], Analysis[T], ABC):
             if not self.eq(vals_before[bb], val_before):
                 vals_before[bb] = val_before
                 queue.update(bb.predecessors)
+            if _verif.ON:
+                _verif.trace(
+                    "BackwardAnalysis.run",
+                    analysis=self,
+                    bb=bb,
+                    vals_before=vals_before,
+                    queue=queue,
+                )
         return vals_before
 
 
